@@ -858,7 +858,21 @@ void init_binaries () {
       if (CONFIG_STR(__SIMUL_EFUN_FILE__))
         {
           struct stat st;
-          if (0 == stat (CONFIG_STR(__SIMUL_EFUN_FILE__), &st))
+          char sefun[PATH_MAX];
+          const char *nm = CONFIG_STR(__SIMUL_EFUN_FILE__);
+          size_t n;
+
+          /* the name is a mudlib path as given to load_object(): relative to the mudlib
+           * directory even with a leading slash, and the ".c" may be omitted */
+          while (*nm == '/')
+            nm++;
+          strncpy (sefun, nm, sizeof (sefun) - 3);
+          sefun[sizeof (sefun) - 3] = '\0';
+          n = strlen (sefun);
+          if (n < 2 || strcmp (sefun + n - 2, ".c") != 0)
+            strcat (sefun, ".c");
+          config_id = 0;
+          if (0 == stat (sefun, &st))
             {
               config_id = (uint64_t)st.st_mtime;
             }
